@@ -223,8 +223,14 @@ func c15BaseUnits(ctx *core.Ctx) []core.Unit {
 		if !ctx.Thorough() {
 			step = 3
 		}
-		for i := 0; i < len(els); i += step {
-			for j := 0; j < len(els); j += step {
+		var sel []int
+		for i := range els {
+			if i%step == 0 || els[i].reg.Sign() == 0 || els[i].reg.Cmp(bi(1)) == 0 || els[i].reg.Cmp(new(big.Int).Sub(bigR, bi(1))) == 0 {
+				sel = append(sel, i) // 0, 1 and r-1 are always part of the sub-alphabet
+			}
+		}
+		for _, i := range sel {
+			for _, j := range sel {
 				a, b := els[i], els[j]
 				in := fmt.Sprintf("x=mont%x y=mont%x", a.e[:], b.e[:])
 				r.Evals++
@@ -243,6 +249,10 @@ func c15BaseUnits(ctx *core.Ctx) []core.Unit {
 					w = bi(0)
 				}
 				chk(r, "Div(z=x=y)", in, z, w)
+				x := a.e
+				z = dirtyFr()
+				z.Div(&x, &x)
+				chk(r, "Div(x=y)", in, z, w)
 			}
 		}
 	}})
